@@ -406,6 +406,16 @@ where
     })
 }
 
+/// The value of a prototype element must lie inside the limits it declares:
+/// the minimum if there is one, otherwise zero unless the maximum is below zero.
+fn float_prototype_value<T: PartialOrd + Default>(min: Option<T>, max: Option<T>) -> T {
+    match (min, max) {
+        (Some(min), _) => min,
+        (None, Some(max)) if max < T::default() => max,
+        _ => T::default(),
+    }
+}
+
 fn serialize_record_type(rt: &RecordDataType) -> (String, String) {
     match rt {
         RecordDataType::Single { min, max } => {
@@ -416,7 +426,7 @@ fn serialize_record_type(rt: &RecordDataType) -> (String, String) {
             if let Some(max) = max {
                 str += &format!(" maximum=\"{max}\"");
             }
-            let value = min.unwrap_or(0.0).to_string();
+            let value = float_prototype_value(*min, *max).to_string();
             (str, value)
         }
         RecordDataType::Double { min, max } => {
@@ -427,7 +437,7 @@ fn serialize_record_type(rt: &RecordDataType) -> (String, String) {
             if let Some(max) = max {
                 str += &format!(" maximum=\"{max}\"");
             }
-            let value = min.unwrap_or(0.0).to_string();
+            let value = float_prototype_value(*min, *max).to_string();
             (str, value)
         }
         RecordDataType::ScaledInteger { min, max, scale, offset } => (
